@@ -447,7 +447,7 @@ static std::string run_case(const Args& a, long i, const std::string& path) {
                 const orc::Geo& gi = surf[k].geo; R L2 = 0, outside = 0, shrink = 0;
                 for (int d = 0; d < 3; d++) { R lo = gi.lo[d] * st[d] + sh[d], hi = gi.hi[d] * st[d] + sh[d]; L2 = std::max(L2, hi - lo); outside = std::max({outside, lo - geo2.lo[d], geo2.hi[d] - hi}); shrink = std::max({shrink, geo2.lo[d] - lo, hi - geo2.hi[d]}); }
                 if (outside > 1e-9L * (L2 + std::fabs((R)sh[0]) + std::fabs((R)sh[1]) + std::fabs((R)sh[2]))) { cs.viol("unfaithful:aabb_outside_input:second_initialisation", "second initialisation in the same process (same cell ids and counts, other coordinates): bounding box of returned cell " + std::to_string(k) + " exceeds the bounding box of its input by " + std::to_string((double)(outside / L2)) + " L"); break; }
-                if (shrink / lmin > c1) { cs.viol("unfaithful:aabb_shrunk:second_initialisation", "second initialisation in the same process (same cell ids and counts, other coordinates): a side of the bounding box of returned cell " + std::to_string(k) + " lies " + std::to_string((double)(shrink / lmin)) + " l_min inside the bounding box of its input"); break; }
+                if (shrink / lmin > c1) { cs.viol(std::string("unfaithful:aabb_shrunk:second_initialisation") + (fams[std::min(k, fams.size() - 1)] == "dumbbell" ? ":necks_thinner_than_lmin" : ""), "second initialisation in the same process (same cell ids and counts, other coordinates): a side of the bounding box of returned cell " + std::to_string(k) + " lies " + std::to_string((double)(shrink / lmin)) + " l_min inside the bounding box of its input"); break; }
                 mt.bin("second_initialisation_cells_validated");
             }
         }
